@@ -196,7 +196,7 @@ def _pairs(call):
 def stage_hyp(ctx):
     zygote()        # fork the pristine zygote before this shard ever calls into a5
     try:
-        hyp_drive(ctx, cases(), judge, 120 if ctx.tier == "quick" else 2500)
+        hyp_drive(ctx, cases(), judge, 120 if ctx.tier == "quick" else 1500)
     finally:
         zygote().close()
         _zyg.clear()
@@ -216,13 +216,22 @@ def stage_systematic(ctx):
         pairs.append((A, B))
     collect()
     # the first examples Hypothesis generates are the simplest ones whatever the seed: keep the last ones
-    pairs = pairs[-3:] if ctx.tier == "thorough" else pairs[-1:]
+    pairs = pairs[-2:] if ctx.tier == "thorough" else pairs[-1:]
     for A, B in pairs:
         trial_in_process((A, B, -1, False, "serial_ab"))
         nA, a1, b1 = trial_in_process((A, B, -1, False, "serial_ab"))     # counted in the warm state
+        _, a2, b2 = trial_in_process((A, B, -1, False, "serial_ba"))
         step = 1 if ctx.tier == "thorough" else max(1, nA // 150)
+        geo = (A[0] in apigen.GEOMETRY or A[0] in apigen.LISTY) and (B[0] in apigen.GEOMETRY or B[0] in apigen.LISTY)
         for k in range(0, nA, step):
-            judge({"A": A, "B": B, "k": k, "cold": False, "opcodes": False, "sys": True}, ctx.col)
+            # serial references are computed once per pair; one traced trial per preemption point
+            n, ta, (tb, where, fired) = sched.run_preempted(_mk(A), _mk(B), k, False)
+            case = {"A": A, "B": B, "k": k, "cold": False, "opcodes": False, "sys": True}
+            if fired and (ta not in (a1, a2) or tb not in (b1, b2)):
+                judge(case, ctx.col)          # re-judge from scratch: raises the Violation with full context
+                ctx.col.count("systematic_mismatch_not_reproduced")
+            ctx.col.case(case, nontrivial=fired and 0 < k and geo,
+                         classes=("systematic", "warm", f"A:{A[0]}", f"B:{B[0]}") + (("fired_inside",) if fired and k > 0 else ()) + (("both_geometry",) if geo else ()))
         if step == 1:
             ctx.col.exhaustive[f"every line preemption point of {A[0]} vs {B[0]} (shard {ctx.shard})"] = True
 
@@ -262,7 +271,7 @@ def stage_shared_slots(ctx):
     pairs.sort(key=lambda p: ("__dict__" in p[2], ))
     ctx.col.count("shared_slots_written", len(owner))
     ctx.col.count("overwriting_call_pairs", len(pairs))
-    budget = 1500 if ctx.tier == "quick" else 30000         # preempted trials per shard
+    budget = 1500 if ctx.tier == "quick" else 12000         # preempted trials per shard
     for X, Y, slot in pairs:
         name = sharedstate.slot_name(slot)
         codes = sharedstate.accessor_codes(name)
